@@ -130,7 +130,9 @@ def helper_source():
     lists as  <len>:<e1>;<e2>;...  - independent of Duden/Ausgabe's list printing"""
     out = []
     body = {
-        "Z": ["Schreibe x."], "K": ["Schreibe x."], "W": ["Schreibe x."], "Y": ["Schreibe x."],
+        "Z": ["Schreibe x."], "K": ["Schreibe x."], "Y": ["Schreibe x."],
+        # a Wahrheitswert is never handed to a C function as a temporary: the branch reads bit 0 like every DDP condition does
+        "W": ["Wenn x, dann:", "\tSchreibe \"wahr\".", "Sonst:", "\tSchreibe \"falsch\"."],
         "B": ["Schreibe (x als Zahl)."],
         "T": ["Schreibe (die Länge von x).", "Schreibe '\"'.", "Schreibe x.", "Schreibe '\"'."],
     }
@@ -184,35 +186,35 @@ def group_signature(duden, g, T):
 
 
 def shape_of(case):
-    """coarse class of the arguments (part of a violation signature)"""
+    """coarse class of the arguments (part of a violation signature): length class of the first list/text argument,
+    position of Zahl arguments relative to that length; sign class of numbers when there is no list/text"""
     parts = []
     ref_len = None
     for pn, tc, _ in case.params:
         v = case.args[pn]
-        if tc.endswith("L") or tc == "T":
-            n = len(v)
-            parts.append("len(%s)=%s" % (pn, n if n < 2 else "2+"))
-            if ref_len is None:
-                ref_len = n
+        if (tc.endswith("L") or tc == "T") and ref_len is None:
+            ref_len = len(v)
+            parts.append("len(%s)=%s" % (pn, ref_len if ref_len < 2 else "2+"))
     for pn, tc, _ in case.params:
         v = case.args[pn]
         if tc == "Z" and ref_len is not None:
-            rel = ("<0" if v < 0 else "0" if v == 0 else "len+1" if v == ref_len + 1 else ">len+1" if v > ref_len + 1 else
-                   "len" if v == ref_len else "1" if v == 1 else "mid")
+            rel = ("<1" if v < 1 else "len+1" if v == ref_len + 1 else ">len+1" if v > ref_len + 1 else
+                   "1=len" if v == 1 == ref_len else "1" if v == 1 else "len" if v == ref_len else "mid")
             parts.append("%s=%s" % (pn, rel))
-        elif tc == "Z":
+        elif tc == "Z" and ref_len is None:
             parts.append("%s%s" % (pn, "<0" if v < 0 else "=0" if v == 0 else ">0"))
-        elif tc == "K":
+        elif tc == "K" and ref_len is None:
             parts.append("%s%s%s" % (pn, "<0" if v < 0 else "=0" if v == 0 else ">0", "" if v == int(v) else " frac"))
     return ", ".join(parts)
 
 
-def build_case(duden, g, T, rng, cid):
+def build_case(duden, g, T, rng, cid, args=None):
     sig = group_signature(duden, g, T)
     if sig is None:
         return None
     params, ret, aliases = sig
-    args = g.gen(rng, T)
+    if args is None:
+        args = g.gen(rng, T)
     if args is None:
         return None
     if set(args) != {p[0] for p in params}:
@@ -400,19 +402,36 @@ _probes_lock = threading.Lock()
 HELPER_NAMES = None
 
 
-def resolve_calls(scratch_dir, src_path, cases):
-    """{case id: resolved Duden function name | None} via the real front end"""
-    pr = get_probe(scratch_dir)
-    try:
-        r = pr.request({"op": "parse", "id": os.path.basename(src_path), "file": src_path, "dump": True, "cpu_sec": 60}, wall_s=180)
-    except ProbeDied:
-        return None
-    if r.get("panic") or r.get("err") or r.get("faulty"):
-        return None
-    by_line = {}
-    for call in r.get("calls") or []:
-        if call.get("kind") == "call":
-            by_line.setdefault(call["l1"], []).append(call["name"])
+_resolve_cache = {}
+_resolve_lock = threading.Lock()
+
+
+def resolve_calls(scratch_dir, src_path, cases, src=None):
+    """{case id: names of the functions the calls on the case's call line resolved to} via the real front end;
+    the same source text (second optimisation level) is parsed once"""
+    key = None
+    if src is not None:
+        import hashlib
+        key = hashlib.sha1(src.encode()).hexdigest()
+        with _resolve_lock:
+            by_line = _resolve_cache.get(key)
+    else:
+        by_line = None
+    if by_line is None:
+        pr = get_probe(scratch_dir)
+        try:
+            r = pr.request({"op": "parse", "id": os.path.basename(src_path), "file": src_path, "dump": True, "cpu_sec": 60}, wall_s=180)
+        except ProbeDied:
+            return None
+        if r.get("panic") or r.get("err") or r.get("faulty"):
+            return None
+        by_line = {}
+        for call in r.get("calls") or []:
+            if call.get("kind") == "call":
+                by_line.setdefault(call["l1"], []).append(call["name"])
+        if key is not None:
+            with _resolve_lock:
+                _resolve_cache[key] = by_line
     res = {}
     for c in cases:
         names = [n for n in by_line.get(c.line, []) if not n.startswith("c17_") and not n.startswith("Schreibe")]
@@ -433,7 +452,7 @@ def run_driver(scratch_dir, name, cases, O, want_probe=True):
     r = DriverResult()
     r.cases, r.src, r.O, r.name = cases, src, O, name
     r.exe = os.path.join(d, "main")
-    r.resolved = resolve_calls(scratch_dir, src_path, cases) if want_probe else None
+    r.resolved = resolve_calls(scratch_dir, src_path, cases, src) if want_probe else None
     r.compile = vlib.kddp_compile(src_path, r.exe, O=O)
     r.run = None
     r.fields = {}
@@ -589,7 +608,7 @@ def report(chk, c, fname, r, state, kind, expected, observed):
 # ------------------------------------------------------------------ plan
 
 def plan_cases(duden, seed, tier, chk, state):
-    per_group = 26 if tier == "quick" else 420
+    per_group = 26 if tier == "quick" else 130
     cases = []
     cid = 0
     for g in M.GROUPS:
@@ -603,10 +622,12 @@ def plan_cases(duden, seed, tier, chk, state):
             rng = random.Random("%s/%s/%s/%s" % (seed, tier, g.key, T))
             seen = set()
             tries = 0
+            fixed = list(g.enum()) if g.enum else []       # small finite domains are enumerated completely
+            n = max(n, len(fixed))
             while len(seen) < n and tries < n * 6:
                 tries += 1
                 cid += 1
-                c = build_case(duden, g, T, rng, cid)
+                c = build_case(duden, g, T, rng, cid, fixed.pop() if fixed else None)
                 if c is None:
                     chk.count("generator_declined")
                     continue
@@ -776,17 +797,18 @@ def run(tier):
     state = {"covered": {}, "cells": set(), "misresolved": {}, "uncompilable": {}, "reported": {}, "disagreements": {}, "stale_models": [],
              "docs": {(m, n): f.doc for m in duden for n, f in duden[m]["funcs"].items()}}
     cases = plan_cases(duden, chk.seed, tier, chk, state)
-    drivers = batch_cases(cases, chk.seed, tier)
+    drivers = batch_cases(cases, chk.seed, tier, size=40 if tier == "quick" else 60)
     chk.count("cases_planned", len(cases))
     chk.count("cases_planned_expecting_documented_Laufzeitfehler", sum(1 for c in cases if c.error))
     levels = [1] if tier == "quick" else [1, 2]
-    n_mem = 10 if tier == "quick" else 60
+    n_mem = 10 if tier == "quick" else 40
     with Scratch("c17") as sc:
         canary(sc.path)
-        jobs = [("d%04d-O%d" % (i, O), d, O) for O in levels for i, d in enumerate(drivers)]
+        # every job owns its Case objects (render_driver writes the call's line number into them)
+        jobs = [("d%04d-O%d" % (i, O), [copy.copy(c) for c in d], O) for O in levels for i, d in enumerate(drivers)]
         rnd = 0
         mem_candidates = []
-        while jobs and rnd < 8:
+        while jobs and rnd < 12:
             results = vlib.pmap(lambda j: run_driver(sc.path, "r%d-%s" % (rnd, j[0]), j[1], j[2]), jobs)
             chk.count("drivers_compiled_round_%d" % rnd, len(results))
             nxt = []
@@ -794,7 +816,9 @@ def run(tier):
                 todo = judge_driver(chk, r, state)
                 for k, (how, cs) in enumerate(todo or []):
                     if how == "split":
-                        nxt += [("%s.s%d" % (name, i), [c], O) for i, c in enumerate(cs)]
+                        # abnormal end or compile failure: quarter the cases until single cases remain
+                        step = 1 if len(cs) <= 4 else (len(cs) + 3) // 4
+                        nxt += [("%s.s%d" % (name, i), cs[i:i + step], O) for i in range(0, len(cs), step)]
                     else:
                         nxt.append(("%s.b%d" % (name, k), cs, O))
                 if rnd == 0 and O == 1 and r.run is not None and r.run.rc == 0 and not any(c.error for c in d):
@@ -811,6 +835,7 @@ def run(tier):
             p.close()
         del _probes[:]
         _tls.__dict__.clear()
+        _resolve_cache.clear()
     chk.distinct_extra = 0
     chk.count("distinct_cells(function x elem type x stored/temp x arg modes)", len(state["cells"]))
     cov = coverage_report(duden, state)
